@@ -1,19 +1,31 @@
 /-
   Driver verbs for the semantics of generated Python code (C11).
     pyroundtrip <schemas-id> <pkg> <object> <json-sexp>   →  ok <json> | err | unsup <why> | fuel
-  `<schemas-id>` names a schema set registered with `defschemas` (the post-PYTHON-chain IR).
+    c11agree <py-id> <go-id> <pkg> <object> <json-sexp>   →  same|differ|na pyden=<b> goden=<b> accepts=<b>
+  `<schemas-id>` names a schema set registered with `defschemas` (`<py-id>`: the post-PYTHON-chain
+  IR, `<go-id>`: the post-GO-chain IR of the same source).  `pyden`/`goden` are the decidable
+  hypotheses of `C11_roundtrip_partial` / `C11_go_py_agree_partial` evaluated on the document.
 -/
 import Cog.Sem.PyCodec
+import Cog.Sem.PyDen
 import Cog.Drv.SchemaStore
 import Cog.Drv.SemDrv
 namespace Cog.Drv
 open Cog Cog.IR Cog.Sem
 
-/-- iterative deepening of the fuel, as for `godec` (results do not depend on the fuel once it suffices) -/
-partial def pyRoundTripAuto (ss : Schemas) (pkg name : String) (j : Json) (f : Nat := 4) : DRes Json :=
+/-- iterative deepening of the fuel, as for `godec` (results do not depend on the fuel once it
+    suffices); returns the fuel that sufficed -/
+partial def pyRoundTripAuto (ss : Schemas) (pkg name : String) (j : Json) (f : Nat := 4) : Nat × DRes Json :=
   match pyRoundTrip f ss pkg name j with
-  | .fuel => if f ≥ semFuel then .fuel else pyRoundTripAuto ss pkg name j (f + 2)
-  | r => r
+  | .fuel => if f ≥ semFuel then (f, .fuel) else pyRoundTripAuto ss pkg name j (f + 2)
+  | r => (f, r)
+
+partial def goRoundTripFuel (ss : Schemas) (pkg name : String) (j : Json) (f : Nat := 4) : Nat × DRes Json :=
+  match goRoundTrip f ss pkg name j with
+  | .fuel => if f ≥ semFuel then (f, .fuel) else goRoundTripFuel ss pkg name j (f + 2)
+  | r => (f, r)
+
+def parseReq (js : List String) : Option Json := (Sexp.parse (" ".intercalate js)).bind Json.ofSexp
 
 def pyroundtripLine (rest : String) : IO String := do
   match rest.splitOn " " with
@@ -21,9 +33,30 @@ def pyroundtripLine (rest : String) : IO String := do
     match ← getSchemas id with
     | none => return "unknown-schemas"
     | some ss =>
-      match (Sexp.parse (" ".intercalate js)).bind Json.ofSexp with
+      match parseReq js with
       | none => return "bad-json"
-      | some j => return showDRes (pyRoundTripAuto ss pkg obj j)
+      | some j => return showDRes (pyRoundTripAuto ss pkg obj j).2
+  | _ => return "bad-request"
+
+def c11agreeLine (rest : String) : IO String := do
+  match rest.splitOn " " with
+  | pid :: gid :: pkg :: obj :: js =>
+    match ← getSchemas pid, ← getSchemas gid with
+    | some ssPy, some ssGo =>
+      match parseReq js with
+      | none => return "bad-json"
+      | some j =>
+        let (fp, rp) := pyRoundTripAuto ssPy pkg obj j
+        let (fg, rg) := goRoundTripFuel ssGo pkg obj j
+        let t : Ty := .ref pkg obj {}
+        let pyden := wfJson j && (pyDen fp ssPy t none j || pyDen (fp + 2) ssPy t none j || pyDen (fp + 4) ssPy t none j)
+        let goden := den fg ssGo t j || den (fg + 2) ssGo t j || den (fg + 4) ssGo t j
+        let acc := accepts fp ssPy t j || accepts (fp + 2) ssPy t j || accepts (fp + 4) ssPy t j
+        let verdict := match rp, rg with
+          | .ok a, .ok b => if Json.eqv a b then "same" else "differ"
+          | _, _ => "na"
+        return s!"{verdict} pyden={pyden} goden={goden} accepts={acc}"
+    | _, _ => return "unknown-schemas"
   | _ => return "bad-request"
 
 end Cog.Drv
